@@ -152,3 +152,18 @@ Proof.
 Qed.
 Print Assumptions C11_exclusive_refuted.
 Print Assumptions C11_exclusive.
+
+(* ---- API level: every reader call that uses the pool is "Get the object, work, Put it back once"
+   (VisitStoredFields with or without early stop, DocID, the stored-field pass of a merge) ---- *)
+Inductive call := Disciplined | EarlyVisitPinned.
+Definition acts_of (t : thread) (o : obj) (c : call) : list act :=
+  match c with Disciplined => [Get t o; Put t o] | EarlyVisitPinned => visit_early_pinned t o end.
+(* sequential execution: the pool hands out its most recently returned object, or a fresh one *)
+Definition choose (s : st) : obj := match pool s with o :: _ => o | [] => next_fresh s end.
+Fixpoint run_calls (s : st) (t : thread) (cs : list call) : option st :=
+  match cs with
+  | [] => Some s
+  | c :: r => match run s (acts_of t (choose s) c) with Some s' => run_calls s' (S t) r | None => None end
+  end.
+Definition max_copies (s : st) : nat :=
+  fold_right (fun o m => Nat.max (copies o s) m) 0 (pool s ++ map snd (held s)).
